@@ -7,6 +7,7 @@ CONSTANTS
   MaxRuns = 1000
   Tolerated <- NoneTolerated
   FnOut = FALSE
+  Poller = FALSE
   Gen = "last"
 CONSTRAINTS Mark NotYetAccepted
 POSTCONDITION Accepted
